@@ -354,7 +354,7 @@ Proof.
 Qed.
 
 Lemma str_truthy_some (o : option str) : (forall s, o = Some s -> s <> []) -> str_truthy o = is_some o.
-Proof. intros H. destruct o as [[|ch s]|]; try reflexivity. exfalso. now apply (H [] eq_refl). Qed.
+Proof. intros _. destruct o as [[|ch s]|]; reflexivity. Qed.
 
 Lemma args_decode_facts ac po kw (vn : list str) fl a fl1 freevars :
   0 <= po <= ac -> 0 <= kw -> ac + kw <= zlen vn -> names_ok vn = true ->
